@@ -66,9 +66,12 @@ impl<T> ConcurrentVec<T> {
         if new_len <= head {
             return;
         }
-        self.push_at(f(), new_len - 1, || {
-            MaybeUninit::new(SyncUnsafeCell(UnsafeCell::new(f())))
-        });
+        // Every slot in `head..new_len` becomes visible to readers once `head` is published,
+        // so each of them has to be written: the backing vector may already be long enough
+        // (after earlier pushes or resizes), in which case nothing else initializes them.
+        for index in head..new_len {
+            self.push_at(f(), index, MaybeUninit::uninit);
+        }
         self.head.store(new_len, Ordering::Release);
     }
 
